@@ -8,4 +8,4 @@ RULE = ("for every item whose CreateObjectBytes() has a different concrete type:
 
 def run(ctx):
     codec.simple_check(ctx, "c10", RULE, [("types with a []byte variant", "types", 30), ("inputs", "inputs", 10000), ("agreements", "agreements", 8000)], 40, 300,
-                       count_keys=("inputs",))
+                       count_keys=("inputs",), random_quick=2, random_thorough=20)
